@@ -72,6 +72,28 @@ func corpusFiles(mode string) []FileDef {
 			explicitEnum("E0", uByName("int16"), 0, c15...),
 			explicitEnum("E1", uByName("uint8"), 1, c16...),
 		}})
+		// names with letters that non-ASCII code points fold to (strings.ToLower: KELVIN SIGN -> k, U+0130 -> i)
+		for _, withCI := range []bool{true, false} {
+			o := defaultOpts()
+			o.CI = withCI
+			out = append(out, FileDef{Kind: "corpus", Opts: o, Enums: []EnumDef{
+				explicitEnum("E0", uByName("int8"), 0, Const{Name: "K", Val: "0"}, Const{Name: "Kilo", Val: "1"},
+					Const{Name: "Iota", Val: "2"}, Const{Name: "Sky", Val: "-1"}, Const{Name: "mass", Val: "3"}),
+			}})
+		}
+		// constants named like identifiers the template binds: `e`, `input` always refused; `text`, `ok` refused
+		// with -caseInsensitive only (without it they are ordinary constants)
+		for _, rn := range []struct {
+			name string
+			ci   bool
+		}{{"e", false}, {"input", true}, {"text", true}, {"ok", false}, {"ok", true}, {"v", false}} {
+			o := defaultOpts()
+			o.CI = rn.ci
+			out = append(out, FileDef{Kind: "corpus", Opts: o, Enums: []EnumDef{
+				explicitEnum("E0", uByName("int"), 0, Const{Name: rn.name, Val: "0"}, Const{Name: "f", Val: "1"},
+					Const{Name: "s", Val: "2"}, Const{Name: "err", Val: "3"}, Const{Name: "data", Val: "4"}, Const{Name: "value", Val: "5"}),
+			}})
+		}
 		// names that differ only by case: refused under -caseInsensitive, two constants otherwise
 		for _, withCI := range []bool{true, false} {
 			o := defaultOpts()
@@ -83,8 +105,10 @@ func corpusFiles(mode string) []FileDef {
 		}
 	case "c05":
 		out = append(out, corpusC05()...)
+		out = append(out, corpusClasses()...)
 	case "c12":
 		out = append(out, corpusC12()...)
+		out = append(out, corpusClasses()...)
 	}
 	return out
 }
